@@ -288,7 +288,7 @@ def pureStep (toks : List String) : String :=
       match (if segs = "none" then some [] else (segs.splitOn ",").mapM parseSeg) with
       | some ss =>
         -- the harness stops after three consecutive errors (a latched reader never consumes the wire)
-        let all := Lnc.Mailbox.Record.readLoop recs 200 ⟨dir, 0, false⟩ ss.flatten
+        let all := Lnc.Mailbox.Record.readLoop recs 2000 ⟨dir, 0, false⟩ ss.flatten
         let res := (all.foldl (fun (acc : List Lnc.Mailbox.Record.Res × Nat) r =>
           if acc.2 ≥ 3 then acc else
           match r with
